@@ -52,12 +52,18 @@ def configs(tier):
         for N in Ns:
             for pick in ("first", "last"):
                 out.append({"sys": kind, "div": list(div), "mesh": mesh, "fac": fac, "irred": sym, "rank": 0, "N": N, "pick": pick})
+    # tied refinement criteria (what symmetric k-points of a real calculator give): every K-point reports the same
+    # criterion, so that run()'s own tie-breaking decides; >16 K-points (numpy sorts shorter arrays by insertion)
+    for kind, div, mesh, sym, fac in [("planar", (5, 4, 1), 2, False, 1)] + ([("cubic", (3, 3, 2), 2, True, 2)] if tier == "thorough" else []):
+        out.append({"sys": kind, "div": list(div), "mesh": mesh, "fac": fac, "irred": sym, "rank": 0, "N": 3, "pick": "ties", "ties": True})
     return out
 
 
 def steering_history(cfg, seed):
     """a deterministic history of depth N: at each iteration refine the first / last `fac` live points"""
     hist = []
+    if cfg.get("ties"):
+        return hist         # nothing is steered: every K-point reports the same criterion, run() breaks the ties itself
     for it in range(cfg["N"]):
         fail, snaps = None, None
         with tmpdir("wbmc_c11h_") as d:
@@ -115,7 +121,8 @@ def run_segment(cfg, seed, hist, mode, d, adpt_num_iter, restart, chooser=None, 
     from wannierberri import run_grid
     system = c10.get_system(cfg["sys"], seed)
     grid = wb.Grid(system, NKdiv=cfg["div"], NKFFT=1)
-    calc = refine.SteerCalc(prio_table=refine.prio_table(hist), salt=seed, rank=cfg["rank"])
+    calc = refine.SteerCalc(prio_table=refine.prio_table(hist), salt=seed, rank=cfg["rank"],
+                            default_prio=1.0 if cfg.get("ties") else 0.0)
     kw = dict(adpt_num_iter=adpt_num_iter, adpt_mesh=cfg["mesh"], adpt_fac=cfg["fac"], use_irred_kpt=cfg["irred"],
               symmetrize=cfg["irred"], parallel=False, fout_name=os.path.join(d, "res"),
               file_Klist_path=os.path.join(d, "klist"), restart=restart, restart_iteration=restart_iteration)
